@@ -446,6 +446,8 @@ def field_xml(f):
 
 def entry_xml(e):
     k = e['kind']
+    if k == 'raw':
+        return e['xml']
     dep = b1(e.get('deprecated'))
     if k == 'function':
         return function_xml(e)
@@ -515,7 +517,32 @@ INCLUDED = {
          '<record name="Item" c:type="YItem"><field name="c" writable="1"><type name="gint8" c:type="gint8"/></field>'
          '<field name="d" writable="1"><type name="gint64" c:type="gint64"/></field></record>\n'
          '<record name="Handle" c:type="YHandle"><field name="e" writable="1"><type name="gint16" c:type="gint16"/></field></record>\n'
-         '</namespace>\n</repository>\n'}
+         '</namespace>\n</repository>\n',
+    # a namespace whose name begins with the name of the including namespace T (Gdk includes GdkPixbuf)
+    'TX': '<?xml version="1.0"?>\n<repository version="1.2" xmlns="http://www.gtk.org/introspection/core/1.0" '
+          'xmlns:c="http://www.gtk.org/introspection/c/1.0" xmlns:glib="http://www.gtk.org/introspection/glib/1.0">\n'
+          '<namespace name="TX" version="1.0" shared-library="libtx.so" c:identifier-prefixes="TX" c:symbol-prefixes="tx">\n'
+          '<record name="Pix" c:type="TXPix"><field name="a" writable="1"><type name="gint32" c:type="gint32"/></field></record>\n'
+          '</namespace>\n</repository>\n'}
+
+# an alias (and an alias of it) of a pointer="1" record of the same namespace: a value of the alias type is a pointer
+ALIAS_FIXTURE = [
+    dict(kind='raw', name='Selection', xml='<alias name="Selection" c:type="TSelection"><type name="Atom" c:type="TAtom"/></alias>', dump=[]),
+    dict(kind='raw', name='Sel2', xml='<alias name="Sel2" c:type="TSel2"><type name="Selection" c:type="TSelection"/></alias>', dump=[]),
+    dict(kind='raw', name='Atom', xml='<record name="Atom" c:type="TAtom" disguised="1" pointer="1"/>',
+         dump=['E struct Atom dep=0 gtype=- init=- isgts=0 foreign=0 size=? align=? copy=- free=-']),
+    dict(kind='raw', name='owner_set',
+         xml='<function name="owner_set" c:identifier="t_owner_set"><return-value transfer-ownership="none"><type name="Selection" c:type="TSelection"/>'
+             '</return-value><parameters><parameter name="selection" transfer-ownership="none"><type name="T.Selection" c:type="TSelection"/></parameter>'
+             '<parameter name="atom" transfer-ownership="none"><type name="Atom" c:type="TAtom"/></parameter>'
+             '<parameter name="s2" transfer-ownership="none"><type name="Sel2" c:type="TSel2"/></parameter>'
+             '<parameter name="l" transfer-ownership="none"><type name="GLib.List" c:type="GList*"><type name="Selection"/></type></parameter>'
+             '</parameters></function>',
+         dump=['E function owner_set dep=0 sym=t_owner_set flags=0 prop=- vfunc=-',
+               '  R transfer=0 null=0 skip=0 throws=0 method=0 type=iface(T.Atom,ptr=1)'] +
+              ['  A %s dir=0 transfer=0 null=0 opt=0 calleralloc=0 skip=0 ret=0 scope=0 closure=-1 destroy=-1 type=%s' % (n_, t_)
+               for n_, t_ in (('selection', 'iface(T.Atom,ptr=1)'), ('atom', 'iface(T.Atom,ptr=1)'), ('s2', 'iface(T.Atom,ptr=1)'),
+                              ('l', 'glist(iface(T.Atom,ptr=1))'))])]
 
 
 def to_gir(ns, includes=()):
@@ -586,6 +613,9 @@ def exp_field(f, d, out, offset='?', size='?'):
 
 def exp_entry(e, d, out):
     k = e['kind']
+    if k == 'raw':
+        out.extend(e['dump'])
+        return
     dep = 1 if e.get('deprecated') else 0
     if k == 'function':
         exp_function(e, d, out)
@@ -681,3 +711,45 @@ def expected_dump(ns):
     for e in ns['entries']:
         exp_entry(e, 0, out)
     return out
+
+
+# a namespace GLib with definitions whose names begin with the names of the built-in containers, and a document that uses them by
+# value and by pointer: they are ordinary records and enumerations, not GHashTable / GError / GList
+GLIB_NAMES_DEP = ('<?xml version="1.0"?>\n<repository version="1.2" xmlns="http://www.gtk.org/introspection/core/1.0" '
+                  'xmlns:c="http://www.gtk.org/introspection/c/1.0" xmlns:glib="http://www.gtk.org/introspection/glib/1.0">\n'
+                  '<namespace name="GLib" version="2.0" shared-library="libglib-2.0.so.0" c:identifier-prefixes="G" c:symbol-prefixes="g,glib">\n'
+                  '<record name="HashTable" c:type="GHashTable" disguised="1" opaque="1"/>\n'
+                  '<record name="HashTableIter" c:type="GHashTableIter">' +
+                  ''.join('<field name="dummy%d" readable="0" private="1"><type name="gpointer" c:type="gpointer"/></field>' % i_ for i_ in range(1, 6)) +
+                  '</record>\n<enumeration name="ErrorType" c:type="GErrorType"><member name="unknown" value="0" c:identifier="G_ERR_UNKNOWN"/></enumeration>\n'
+                  '<record name="List" c:type="GList"/>\n<record name="SListNode" c:type="GSListNode"><field name="a" writable="1"><type name="gint32" c:type="gint32"/></field></record>\n'
+                  '<record name="ListStoreish" c:type="GListStoreish"><field name="a" writable="1"><type name="gint32" c:type="gint32"/></field></record>\n'
+                  '</namespace>\n</repository>\n')
+GLIB_NAMES_DOC = ('<?xml version="1.0"?>\n<repository version="1.2" xmlns="http://www.gtk.org/introspection/core/1.0" '
+                  'xmlns:c="http://www.gtk.org/introspection/c/1.0" xmlns:glib="http://www.gtk.org/introspection/glib/1.0">\n'
+                  '<include name="GLib" version="2.0"/>\n'
+                  '<namespace name="U" version="1.0" shared-library="libu.so" c:identifier-prefixes="U" c:symbol-prefixes="u">\n'
+                  '<record name="Walker" c:type="UWalker">'
+                  '<field name="n" writable="1"><type name="gint32" c:type="gint32"/></field>'
+                  '<field name="iter" writable="1"><type name="GLib.HashTableIter" c:type="GHashTableIter"/></field>'
+                  '<field name="kind" writable="1"><type name="GLib.ErrorType" c:type="GErrorType"/></field>'
+                  '<field name="table" writable="1"><type name="GLib.HashTable" c:type="GHashTable*"><type name="utf8"/><type name="gint32"/></type></field>'
+                  '</record>\n'
+                  '<function name="walk" c:identifier="u_walk"><return-value transfer-ownership="none"><type name="none" c:type="void"/></return-value>'
+                  '<parameters><parameter name="iter" transfer-ownership="none"><type name="GLib.HashTableIter" c:type="GHashTableIter*"/></parameter>'
+                  '<parameter name="kind" transfer-ownership="none"><type name="GLib.ErrorType" c:type="GErrorType"/></parameter>'
+                  '<parameter name="ls" transfer-ownership="none"><type name="GLib.ListStoreish" c:type="GListStoreish*"/></parameter>'
+                  '<parameter name="sn" transfer-ownership="none"><type name="GLib.SListNode" c:type="GSListNode*"/></parameter>'
+                  '<parameter name="l" transfer-ownership="none"><type name="GLib.List" c:type="GList*"><type name="GLib.ListStoreish"/></type></parameter>'
+                  '</parameters></function>\n</namespace>\n</repository>\n')
+GLIB_NAMES_DUMP = [
+    'E struct Walker dep=0 gtype=- init=- isgts=0 foreign=0 size=? align=? copy=- free=-',
+    '  F n flags=3 offset=? size=0 type=gint32',
+    '  F iter flags=3 offset=? size=0 type=iface(GLib.HashTableIter,ptr=0)',
+    '  F kind flags=3 offset=? size=0 type=iface(GLib.ErrorType,ptr=0)',
+    '  F table flags=3 offset=? size=0 type=ghash(utf8*,gint32)',
+    'E function walk dep=0 sym=u_walk flags=0 prop=- vfunc=-',
+    '  R transfer=0 null=0 skip=0 throws=0 method=0 type=void'] + [
+    '  A %s dir=0 transfer=0 null=0 opt=0 calleralloc=0 skip=0 ret=0 scope=0 closure=-1 destroy=-1 type=%s' % (n_, t_)
+    for n_, t_ in (('iter', 'iface(GLib.HashTableIter,ptr=1)'), ('kind', 'iface(GLib.ErrorType,ptr=0)'), ('ls', 'iface(GLib.ListStoreish,ptr=1)'),
+                   ('sn', 'iface(GLib.SListNode,ptr=1)'), ('l', 'glist(iface(GLib.ListStoreish,ptr=0))'))]
